@@ -22,7 +22,7 @@ def decIntsP (s : String) : Option (List Nat) :=
 
 def handleIO (op : String) (args impl : List String) : Verdict :=
   match op, args with
-  | "lib.scanner", [_end, doc, _sizes] =>
+  | "lib.scanner", [endA, doc, _sizes] =>
     match decBytes doc, impl with
     | some doc, e :: eff :: n :: rest =>
       match decIntsP eff, n.toNat? with
@@ -32,17 +32,28 @@ def handleIO (op : String) (args impl : List String) : Verdict :=
         -- the recorded schedule stops where the scanner stopped reading; what it never asked for is still
         -- in the stream: model it as one more chunk
         let rest := doc.drop (eff.foldl (· + ·) 0)
-        let chunks := chunksOf doc eff ++ (if rest.isEmpty then [] else [rest])
+        -- `fault` (unlike `wfault`): the reader reports its error in a `Read` of its own, after the one that
+        -- returned the last bytes with a nil error, so the split function sees those bytes with atEOF = false
+        -- first: an empty chunk before the end marker. It matters for one thing only: a final line of more than
+        -- 65535 bytes then ends with too-long rather than with the reader's error (`C17.long_line_fault_both`).
+        -- With `eof`/`weof` both deliveries give the same result (`C17.schedule_independent_full`).
+        let sep : List (List UInt8) := if endA = "fault" then [[]] else []
+        let chunks := chunksOf doc eff ++ (if rest.isEmpty then [] else [rest]) ++ sep
         let e' : End := if e = "fault" then .fault else .eof
         let (toks, err) := scan true [] chunks e' 0
         let m := " ".intercalate (toks.map encBytes ++ [errName err])
         let i := " ".intercalate (toksI ++ [kindI])
         compare m i fun _ =>
-          -- C17/C18 on the scanner level, evaluated on the implementation's answer
-          if kindI = "toolong" || kindI = "noprogress" then true
+          -- C17/C18 on the scanner level, evaluated on the implementation's answer (`C17.scan_bytes`):
+          -- the tokens are the lines of the bytes read before the first line of more than 65535 bytes;
+          -- the error is too-long if there is such a line (or the reader's own error, when that came
+          -- first), else the reader's own error or none
+          if kindI = "noprogress" || kindI = "badread" then true
           else
-            toksI == (linesOf (chunksOf doc eff).flatten).map encBytes &&
-              (if e = "fault" then kindI = "io" else kindI = "none")
+            let bs := (chunksOf doc eff).flatten
+            toksI == (linesBefore bs).map encBytes &&
+              (if firstLong bs then kindI = "toolong" || (e = "fault" && kindI = "io")
+               else if e = "fault" then kindI = "io" else kindI = "none")
       | _, _ => .bad "lib.scanner impl"
     | _, _ => .bad "lib.scanner"
   | "io.sched", _ => compare "same" (" ".intercalate impl) fun _ => false
